@@ -257,19 +257,21 @@ fn park(x: &mut Exec) -> Res {
     let plan: Vec<(Option<u64>, bool, u64)> = (0..rounds)
         .map(|_| {
             let timed = x.rng.chance(1, 3);
-            let d = if timed { Some(*x.rng.pick(&[2u64, 3, 5])) } else { None };
+            // micro-seconds, whole and fractional milli-seconds: Timeout must never be reported before the deadline
+            let d = if timed { Some(*x.rng.pick(&[1_500u64, 1_700, 2_000, 2_999, 3_000, 5_250])) } else { None };
             let has_unpark = !timed || x.rng.chance(1, 2);
             (d, has_unpark, x.rng.below(1200))
         })
         .collect();
     for p in &plan {
         if let Some(d) = p.0 {
-            x.timeout_used(Duration::from_millis(d));
+            x.timeout_used(Duration::from_micros(d));
         }
     }
     let slot: Arc<Vec<std::sync::Mutex<Option<Arc<Blocker>>>>> = Arc::new((0..rounds).map(|_| std::sync::Mutex::new(None)).collect());
     let started: Arc<Vec<AtomicBool>> = Arc::new((0..rounds).map(|_| AtomicBool::new(false)).collect());
     let co_handle: Arc<std::sync::Mutex<Option<coroutine::Coroutine>>> = Arc::new(std::sync::Mutex::new(None));
+    let gave_up: Arc<Vec<AtomicBool>> = Arc::new((0..rounds).map(|_| AtomicBool::new(false)).collect());
     let errs = Arc::new(std::sync::Mutex::new(Vec::<String>::new()));
     {
         let (slot, started, plan, errs, co_handle) = (slot.clone(), started.clone(), plan.clone(), errs.clone(), co_handle.clone());
@@ -287,9 +289,9 @@ fn park(x: &mut Exec) -> Res {
                 let t0 = Instant::now();
                 a.call("park", i as u64);
                 let res: Result<(), coroutine::ParkError> = match (&b, d) {
-                    (Some(b), d) => b.park(d.map(Duration::from_millis)),
+                    (Some(b), d) => b.park(d.map(Duration::from_micros)),
                     (None, Some(d)) => {
-                        coroutine::park_timeout(Duration::from_millis(*d));
+                        coroutine::park_timeout(Duration::from_micros(*d));
                         Ok(())
                     }
                     (None, None) => {
@@ -306,8 +308,8 @@ fn park(x: &mut Exec) -> Res {
                 a.ret("park", i as u64, code);
                 match (res, d) {
                     (Err(coroutine::ParkError::Timeout), Some(d)) => {
-                        if el < Duration::from_millis(*d) {
-                            errs.lock().unwrap().push(format!("round {}: park({}ms) reported Timeout after {:?}", i, d, el));
+                        if el < Duration::from_micros(*d) {
+                            errs.lock().unwrap().push(format!("round {}: park({}us) reported Timeout after {:?}, before its deadline", i, d, el));
                         }
                     }
                     (Err(coroutine::ParkError::Timeout), None) => errs.lock().unwrap().push(format!("round {}: park(None) reported Timeout", i)),
@@ -318,7 +320,7 @@ fn park(x: &mut Exec) -> Res {
         });
     }
     for u in 0..unparkers {
-        let (slot, started, plan, co_handle) = (slot.clone(), started.clone(), plan.clone(), co_handle.clone());
+        let (slot, started, plan, co_handle, gave_up) = (slot.clone(), started.clone(), plan.clone(), co_handle.clone(), gave_up.clone());
         let is_co = x.rng.chance(1, 2);
         x.spawn(&format!("unparker{}", u), is_co, move |a| {
             for (i, (_d, has, delay)) in plan.iter().enumerate() {
@@ -328,9 +330,19 @@ fn park(x: &mut Exec) -> Res {
                 // bounded: if the target is stranded the unparker must end too, so that the
                 // quiescence oracle can name the open park instead of a polling actor
                 let t0 = Instant::now();
+                let (mut iters, mut worst) = (0u64, 0u64);
                 while !started[i].load(SeqCst) {
+                    let n0 = Instant::now();
                     nap(100);
-                    if t0.elapsed() > Duration::from_secs(4) {
+                    iters += 1;
+                    worst = worst.max(n0.elapsed().as_micros() as u64);
+                    if t0.elapsed() > Duration::from_secs(4) && !started[i].load(SeqCst) {
+                        // remembered: if the target gets here after all, its park of this and the later rounds has no
+                        // unparker and says nothing about may
+                        for g in gave_up.iter().skip(i) {
+                            g.store(true, SeqCst);
+                        }
+                        a.note("gave up: polls, worst nap us", iters, worst);
                         return;
                     }
                 }
@@ -347,8 +359,19 @@ fn park(x: &mut Exec) -> Res {
             }
         });
     }
-    x.desc = format!("park rounds(timeout_ms,unparked,delay_us)={:?} fresh_blocker={} target_co={} unparkers={}", plan, fresh, target_co, unparkers);
-    x.wait_all()?;
+    x.desc = format!("park rounds(timeout_us,unparked,delay_us)={:?} fresh_blocker={} target_co={} unparkers={}", plan, fresh, target_co, unparkers);
+    let r = x.wait_all();
+    if let Err(Fail::Stranded(msg)) = &r {
+        // the round the target is stuck in: did its unparker give up before the target got there (a machine that
+        // stalled the target for seconds)? then nobody was going to unpark it
+        let open_round = x.actors.iter().find(|a| a.name == "target").and_then(|a| a.open.lock().unwrap().as_ref().map(|o| o.1 as usize));
+        if let Some(i) = open_round {
+            if i < rounds && gave_up[i].load(SeqCst) {
+                return Err(Fail::Inconclusive(format!("the unparker of round {} gave up after 4 s before the target started that round{}: {}", i, worst_nap(), msg)));
+            }
+        }
+    }
+    r?;
     if let Some(e) = errs.lock().unwrap().first() {
         return viol(format!("park/unpark: {}", e));
     }
@@ -577,7 +600,7 @@ fn tmr(x: &mut Exec) -> Res {
         for (what, d_us, el_us) in lates.lock().unwrap().iter() {
             // AtomicDuration granularity: 1 ms
             if *el_us > d_us + 1_000 + late_bound_us(l) {
-                return viol(format!("timed wait: {} for {}us returned after {}us (worst scheduler oversleep measured: {}us)", what, d_us, el_us, l));
+                return Err(Fail::Suspect(format!("timed wait: {} for {}us returned after {}us (worst scheduler oversleep measured: {}us)", what, d_us, el_us, l)));
             }
         }
     }
@@ -680,7 +703,7 @@ fn tmrmix(x: &mut Exec) -> Res {
     if !x.perturbed && l < 5_000 {
         for (d_us, el_us) in lates.lock().unwrap().iter() {
             if *el_us > d_us + 1_000 + late_bound_us(l) {
-                return viol(format!("timer mix: sleep({}us) returned after {}us while other timers were pending/removed (worst scheduler oversleep {}us)", d_us, el_us, l));
+                return Err(Fail::Suspect(format!("timer mix: sleep({}us) returned after {}us while other timers were pending/removed (worst scheduler oversleep {}us)", d_us, el_us, l)));
             }
         }
     }
